@@ -378,7 +378,7 @@ def judge(ctx, idx, case):
     first = interp.run(case["ops"])
     for n in range(2):
         tops, changed = routes.route_twin(case["ops"], r)
-        tw = interp.run(tops, style_xor=r.choice([0, 1, 2, 4, 7]))
+        tw = interp.run(tops, style_xor=r.choice([0, 1, 2, 4, 7]), prog=first.prog)
         if [o.split(":")[0] for o in tw.outcomes] != [o.split(":")[0] for o in first.outcomes]:
             ctx.count("route_twin.not_comparable(outcomes differ)")
             continue
@@ -394,12 +394,13 @@ def judge(ctx, idx, case):
         # ... and the same program run by another interpreter process (another string-hash seed), handed over by pickle
         there = common.build_elsewhere(case["ops"])
         if there is not None:
-            eq = compare(ctx, "preserving.built_in_another_process", d, there.doc, problems)
+            d_fresh = interp.run(case["ops"], use_pool=False).doc     # what this process builds from the same calls without its own history
+            eq = compare(ctx, "preserving.built_in_another_process", d_fresh, there.doc, problems)
             ctx.count("variant.built_in_another_process.%s" % ("equivalent" if eq else "NOT-equivalent"))
             if not eq:
                 problems.append({"pair": "preserving.built_in_another_process", "problem": "the same program run in another process and unpickled here "
-                                 "gives a document that is not content-equivalent", "diff": strict.diff(strict.strict(d), strict.strict(there.doc), 4)})
-            compare_records(ctx, d, there.doc, r, problems)
+                                 "gives a document that is not content-equivalent", "diff": strict.diff(strict.strict(d_fresh), strict.strict(there.doc), 4)})
+            compare_records(ctx, d_fresh, there.doc, r, problems)
     for kind in case["preserving"]:
         try:
             v = variant_preserving(kind, od, d, r)
